@@ -50,6 +50,7 @@ def fmt_int(v):
 
 def pre(ctx):
     """rebuild the harness and re-dump the tower constants from the Rust configs"""
+    _gen_regen(ctx)
     sh = ctx['sh']
     rc, out = sh('cargo build --offline --bin c02', cwd=ctx['ROOT'] + '/harness', timeout=3000,
                  env={'RUSTFLAGS': '--cfg arkworks_rs_algebra_verif'})
@@ -461,3 +462,15 @@ HYPOTHESES = ['ring_theory of the base dictionary (commutative-ring laws of the 
               'assembled towers: the constants the per-curve overrides hard-wire (fp2_consts_ok, fp3_consts_ok, '
               'fp6a_consts_ok: e.g. bls12_381 nr2 = -1, nr6 = 1+u) and structural generators as Fp4/Fp6(2/3)/Fp12 non-residues',
               'Frobenius = power (partial): freshman identity (u+v)^n = u^n + v^n in the extension and X^n = c X']
+
+# T-field translator (lib/xlate_field.py): coq/Gen/GenField.v is regenerated from the working tree's source text before
+# the Coq build; Props/Gen.v (generated formulas = the models the theorems are about + corollaries) is a strict obligation
+STRICT_PROP_FILES = ['Gen']
+
+
+def _gen_regen(ctx):
+    import importlib.util, os
+    sp = importlib.util.spec_from_file_location('gen_pre', os.path.join(ctx['ROOT'], 'props', 'Gen', 'pre.py'))
+    m = importlib.util.module_from_spec(sp); sp.loader.exec_module(m)
+    m.regen(ctx)
+
